@@ -93,6 +93,31 @@ pub fn run(ctx: &Ctx) -> Result<(), String> {
             }
         }
     }
+    // a health-check connection that is opened and then left silent and open (a connect-only probe
+    // of a load balancer) while the signal arrives: the worker must not wait for that peer
+    {
+        let plans: Vec<(usize, usize, i32)> = ctx.tier.pick(vec![(1, 64, libc::SIGINT)], vec![(1, 64, libc::SIGINT), (1, 64, libc::SIGTERM), (2, 2, libc::SIGTERM)]);
+        for (n, bound, sig) in plans {
+            let scn = Scenario {
+                name: format!("shutdown-n{}-health-silent-connection-{}", n, if sig == libc::SIGINT { "INT" } else { "TERM" }),
+                workers: n,
+                health: true,
+                stats: false,
+                batch_size: 2,
+                env: vec![],
+                idle_iteration: false,
+                horizon: 400,
+                expect: Expect::CleanExit,
+                probe_at_end: false,
+            };
+            let s = explore(ctx, "client_stats off/open-health-connection", &scn, &move |slot: &Slot| {
+                let mut e = env_with_signal(slot, n, 1, sig, 1)?;
+                e.insert(0, EnvAct::ConnectTcp);
+                Some(e)
+            }, bound, ctx.tier.pick(1500, 30000), Duration::from_secs(ctx.tier.pick(25, 90)))?;
+            sched.merge(s);
+        }
+    }
     // part 2: flood lasso
     let lasso = crate::sched::flood_lasso(ctx)?;
     // part 4: TLA+ lifecycle model (TLC: invariants + termination under fairness) bound to the
@@ -289,6 +314,35 @@ pub fn run(ctx: &Ctx) -> Result<(), String> {
         }
         sp.kill();
         let _ = std::fs::remove_dir_all(&dir);
+    }
+    // an open, silent health-check connection at the signal (sampled)
+    for sig in [libc::SIGINT, libc::SIGTERM] {
+        let hport = free_port();
+        let (mut sp, _port) = crate::proc::start_serving(
+            &|port| {
+                let mut w = Written::base(port);
+                w.set("num_workers", "2");
+                w.set("health_check_port", &hport.to_string());
+                w
+            },
+            Source::File,
+            2,
+            Duration::from_secs(20),
+        )?;
+        let conn = std::net::TcpStream::connect_timeout(&format!("127.0.0.1:{}", hport).parse().unwrap(), Duration::from_secs(2));
+        std::thread::sleep(Duration::from_millis(250));
+        let t0 = Instant::now();
+        sp.signal(sig);
+        let ex = sp.wait_exit(Duration::from_secs(10));
+        let secs = t0.elapsed().as_secs_f64();
+        let se = sp.stderr();
+        sampled.push(json!({"num_workers":2,"health_check_port":true,"silent_open_connection":conn.is_ok(),"signal":if sig == libc::SIGINT {"INT"} else {"TERM"},"exit":format!("{:?}", ex.map(|e| (e.0, e.1))),"seconds":(secs * 1000.0).round() / 1000.0}));
+        if !(matches!(ex, Some((Some(0), _, _))) && secs <= 5.0 && !se.contains("panicked")) {
+            ctx.violation("wall-clock-shutdown", if ex.is_none() { "no-exit-10s" } else { "unclean" }, "open-health-connection",
+                json!({"kind":"wallclock-health-connection","signal":sig,"exit":format!("{:?}", ex),"seconds":secs}));
+        }
+        drop(conn);
+        sp.kill();
     }
     // two signals a short while apart (sampled)
     for (stats, gap_ms, s1, s2) in [(false, 15u64, libc::SIGINT, libc::SIGTERM), (true, 250, libc::SIGTERM, libc::SIGINT), (false, 40, libc::SIGTERM, libc::SIGTERM)] {
